@@ -1,6 +1,7 @@
 package lint
 
 import (
+	"go/constant"
 	"go/token"
 	"go/types"
 	"strings"
@@ -109,6 +110,15 @@ func ruleOptionRange() *Rule {
 							ob.Detail = "any duration is accepted: with less than half a millisecond (or a negative value) the election ticker calls rand.Int63n with a non-positive range and the process panics shortly after Start"
 						}
 						out = append(out, ob)
+						// (D55) and an upper bound: the ticker computes 2*electionTimeout
+						ub := Obligation{Rule: id, Construct: "TIMEOUT upper bound of the election timeout in " + FuncName(fn), Pos: p.InstrPos(in)}
+						if timeoutUpperBounded(st) {
+							ub.Verdict, ub.Detail = Discharged, "dominated by a test that rejects durations above a constant of at most half the largest duration"
+						} else {
+							ub.Verdict = Violated
+							ub.Detail = "no upper bound: for a timeout above half of the largest duration (math.MaxInt64 as \"never\") the election ticker's 2*electionTimeout overflows to a negative value, rand.Int63n panics in a background goroutine and the process dies shortly after Start"
+						}
+						out = append(out, ub)
 					}
 				}
 			}
@@ -763,6 +773,56 @@ func leaseStoreGuardedByAfter(st *ssa.Store, expFld *types.Var) bool {
 		}
 		arm := b.Succs[edge]
 		if len(arm.Preds) == 1 && arm.Dominates(st.Block()) {
+			return true
+		}
+	}
+	return false
+}
+
+// timeoutUpperBounded: the store is reached only on the not-greater side of a comparison of the stored value with a
+// constant of at most 1<<62 (so that twice the value is still an int64).
+func timeoutUpperBounded(st *ssa.Store) bool {
+	fn := st.Parent()
+	same := func(x ssa.Value) bool {
+		x = stripConv(x)
+		v := stripConv(st.Val)
+		if x == v {
+			return true
+		}
+		u1, ok1 := x.(*ssa.UnOp)
+		u2, ok2 := v.(*ssa.UnOp)
+		return ok1 && ok2 && u1.Op == token.MUL && u2.Op == token.MUL && u1.X == u2.X
+	}
+	for _, b := range fn.Blocks {
+		iff, ok := b.Instrs[len(b.Instrs)-1].(*ssa.If)
+		if !ok {
+			continue
+		}
+		bo, ok := iff.Cond.(*ssa.BinOp)
+		if !ok {
+			continue
+		}
+		var k *ssa.Const
+		side := -1 // successor on which value <= constant
+		switch {
+		case same(bo.X) && (bo.Op == token.GTR || bo.Op == token.GEQ):
+			k, _ = bo.Y.(*ssa.Const)
+			side = 1
+		case same(bo.Y) && (bo.Op == token.LSS || bo.Op == token.LEQ):
+			k, _ = bo.X.(*ssa.Const)
+			side = 1
+		case same(bo.X) && (bo.Op == token.LEQ || bo.Op == token.LSS):
+			k, _ = bo.Y.(*ssa.Const)
+			side = 0
+		}
+		if k == nil || k.Value == nil || k.Value.Kind() != constant.Int {
+			continue
+		}
+		v, exact := constant.Int64Val(k.Value)
+		if !exact || v <= 0 || v > 1<<62 {
+			continue
+		}
+		if t := b.Succs[side]; t == st.Block() || t.Dominates(st.Block()) {
 			return true
 		}
 	}
